@@ -570,6 +570,24 @@ def r15_8(ctx):
     ctx.expect_assign('R15.8', fk, 'bs', 'tuple((kv1.numdofs, kv0.numdofs) for (kv0, kv1) in zip(kvs0, kvs1))', 'block sizes (test space rows, trial space columns)')
 
 
+def r15_10(ctx):
+    """asmatrix(): every sparse matrix it builds gets shape=self.shape.  Without it scipy infers the shape from the largest
+    index present, so a pattern whose last row or column is empty gives a smaller matrix than M.shape."""
+    f = ctx.prog.func(PY + '.MLMatrix.asmatrix')
+    n = 0
+    for c in ast.walk(f.node):
+        if isinstance(c, ast.Call) and (call_name(c) or '').split('.')[-1] in ('coo_matrix', 'csr_matrix', 'csc_matrix', 'coo_array', 'csr_array') \
+                and c.args and isinstance(c.args[0], ast.Tuple):
+            n += 1
+            sh = kwarg(c, 'shape', 1)
+            ok = sh is not None and src(sh) in ('self.shape', 'self.structure.shape')
+            ctx.decide('R15.10', f.qual, src(c)[:90], ok, c, 'explicit shape' if ok else
+                       'built from (data, (I, J)) without shape=self.shape: the shape is inferred from the largest row / column index, so a '
+                       'structure whose last row or column has no entry converts to a matrix smaller than M.shape (M.dot(x) then raises for '
+                       'L = 1 and L >= 4)', definite=True)
+    ctx.floor('R15.10', 'sparse constructions in MLMatrix.asmatrix', n, 1)
+
+
 def r15_9(ctx):
     """Local row numbers returned with renumber_rows=True are positions in the CALLER's list: the parameter row_indices is not
     replaced by a subset of itself before np.arange(len(row_indices)) numbers the rows (kron_partial(.., restrict=True) places
@@ -607,7 +625,25 @@ def r15_9(ctx):
         ctx.met('R15.9', f.qual, src(uses[0]), uses[0], 'numbering refers to the list as passed by the caller')
 
 
+def r15_11(ctx):
+    """compute_sparsity_ij(kv1, kv2) decides which basis functions of two knot vectors have joint support.  The supports
+    must be compared in PARAMETER coordinates (knot values); mesh_support_idx_all() gives indices into each knot vector's own
+    mesh, which are comparable only if the two meshes are identical (not for a knot vector and its refinement)."""
+    f = ctx.prog.func(PY + '.compute_sparsity_ij')
+    idx = [c for c in ast.walk(f.node) if isinstance(c, ast.Call) and isinstance(c.func, ast.Attribute) and c.func.attr in ('mesh_support_idx_all', 'mesh_support_idx')]
+    recv = {src(c.func.value) for c in idx}
+    if len(recv) >= 2:
+        ctx.violated('R15.11', f.qual, ' / '.join(sorted(src(c) for c in idx)), idx[0],
+                     'the supports of the two knot vectors are compared as indices into their OWN meshes: for different meshes (kv and '
+                     'kv.refine()) the index intervals are not comparable -- from_kvs reports 24 pairs where 36 overlap (18 missing, 6 spurious)')
+    else:
+        coords = any(isinstance(x, ast.Attribute) and x.attr == 'kv' for x in ast.walk(f.node)) or '.support' in src(f.node)
+        ctx.decide('R15.11', f.qual, 'supports compared in parameter coordinates', True if coords else None, f.node)
+
+
 def run(ctx):
+    r15_11(ctx)
+    r15_10(ctx)
     r15_9(ctx)
     r15_8(ctx)
     r15_1(ctx)
